@@ -46,9 +46,21 @@ MAX_EVENTS = 6000  # explicit horizon for every run (deliveries)
 _WALL_FIELDS = ("wall",)  # substrings of field names holding wall-clock measurements
 
 
-def model(name):
+EXPLICIT_SEEDS: set = set()
+
+
+def model(name, explicit_seeds=False):
+    """``explicit_seeds=True``: every stochastic component of the model takes its seed through a
+    ``seed=`` / ``rng=`` parameter and nothing in it is specified to draw from the module-level
+    ``random`` / ``numpy.random`` generators.  For such a model the state of those global
+    generators is part of the ENVIRONMENT (whatever ran earlier left it there), not of the model:
+    ``run_model`` then does not seed them with the model seed but puts them into the "ambient"
+    state the environment answer dictates, so a seeded component that secretly draws from the
+    global generator diverges on the prior-activity / rerun dimensions."""
     def deco(fn):
         MODELS[name] = fn
+        if explicit_seeds:
+            EXPLICIT_SEEDS.add(name)
         return fn
     return deco
 
@@ -150,13 +162,15 @@ def seed_all(seed: int) -> None:
         np.random.seed(seed % (2 ** 32))
 
 
-def run_model(name: str, seed: int, full: bool = False) -> dict:
-    """Build + run one model; returns digests (and the full observation when ``full``)."""
+def run_model(name: str, seed: int, full: bool = False, ambient: int = 0) -> dict:
+    """Build + run one model; returns digests (and the full observation when ``full``).
+    ``ambient``: state of the global generators left behind by "earlier activity" (only used for
+    explicit-seeds models, see ``model``)."""
     log = []
     outcome = "done"
     stats = None
     try:
-        seed_all(seed)
+        seed_all(987_000 + ambient if name in EXPLICIT_SEEDS else seed)
         m = MODELS[name](seed)
         sim = m.sim
         ctl = sim.control
@@ -215,7 +229,7 @@ def keys_for(seed, n, universe=12, prefix="user-", salt=0):
 # ===========================================================================
 # 1. sources / queues / servers / sinks
 # ===========================================================================
-@model("pipeline-const")
+@model("pipeline-const", explicit_seeds=True)
 def m_pipeline_const(seed):
     sink = Sink("sink")
     from happysimulator import Server
@@ -456,7 +470,7 @@ def m_leader_election(seed):
     return Model(sim, ents, extra=lambda: [(n.name, n.current_leader, n.current_term) for n in allnodes])
 
 
-@model("distributed-lock")
+@model("distributed-lock", explicit_seeds=True)
 def m_distributed_lock(seed):
     from happysimulator import DistributedLock
     lock = DistributedLock(name="locks", lease_duration=0.5, max_waiters=4)
@@ -528,25 +542,25 @@ def _lsm_model(seed, strategy, with_wal=True, with_disk=False):
                  extra=lambda: {"levels": lsm.level_summary, "reads": dict(counters)})
 
 
-@model("lsm-size-tiered")
+@model("lsm-size-tiered", explicit_seeds=True)
 def m_lsm_st(seed):
     from happysimulator import SizeTieredCompaction
     return _lsm_model(seed, SizeTieredCompaction(min_sstables=3))
 
 
-@model("lsm-leveled")
+@model("lsm-leveled", explicit_seeds=True)
 def m_lsm_lv(seed):
     from happysimulator import LeveledCompaction
     return _lsm_model(seed, LeveledCompaction(level_0_max=2, size_ratio=2, base_size_keys=8), with_disk=True)
 
 
-@model("lsm-fifo")
+@model("lsm-fifo", explicit_seeds=True)
 def m_lsm_fifo(seed):
     from happysimulator import FIFOCompaction
     return _lsm_model(seed, FIFOCompaction(max_total_sstables=4), with_wal=False)
 
 
-@model("btree-txn")
+@model("btree-txn", explicit_seeds=True)
 def m_btree_txn(seed):
     """B-tree behind a transaction manager (snapshot isolation), two conflicting writers."""
     from happysimulator import BTree, IsolationLevel, TransactionManager
@@ -603,7 +617,7 @@ def _cached_model(seed, policy, write_back=False, sharded_backing=True, capacity
 
 
 def _reg_cache(name, mk, **kw):
-    @model(name)
+    @model(name, explicit_seeds=True)  # KV stores, eviction policies (seed=) and the workload use no global RNG
     def _b(seed, _mk=mk, _kw=kw):
         return _cached_model(seed, _mk(seed), **_kw)
     return _b
@@ -651,7 +665,7 @@ def _sketch_model(seed, make_collectors, observe, rate=400.0, dur=1.0):
     return Model(sim, [src, fan, *collectors], extra=lambda: observe(collectors))
 
 
-@model("sketch-countmin")
+@model("sketch-countmin", explicit_seeds=True)
 def m_sketch_cms(seed):
     from happysimulator import CountMinSketch, SketchCollector
 
@@ -668,7 +682,7 @@ def m_sketch_cms(seed):
     return _sketch_model(seed, mk, obs)
 
 
-@model("sketch-bloom")
+@model("sketch-bloom", explicit_seeds=True)
 def m_sketch_bloom(seed):
     from happysimulator import BloomFilter, SketchCollector
 
@@ -683,7 +697,7 @@ def m_sketch_bloom(seed):
     return _sketch_model(seed, mk, obs)
 
 
-@model("sketch-hll")
+@model("sketch-hll", explicit_seeds=True)
 def m_sketch_hll(seed):
     from happysimulator import HyperLogLog, SketchCollector
 
@@ -693,7 +707,7 @@ def m_sketch_hll(seed):
     return _sketch_model(seed, mk, lambda cs: {"card": cs[0].sketch.cardinality(), "n": cs[0].sketch.item_count})
 
 
-@model("sketch-topk")
+@model("sketch-topk", explicit_seeds=True)
 def m_sketch_topk(seed):
     from happysimulator import TopKCollector
 
@@ -706,7 +720,7 @@ def m_sketch_topk(seed):
     return _sketch_model(seed, mk, obs)
 
 
-@model("sketch-quantile-reservoir")
+@model("sketch-quantile-reservoir", explicit_seeds=True)
 def m_sketch_quant(seed):
     from happysimulator import QuantileEstimator, ReservoirSampler, SketchCollector
 
@@ -791,7 +805,7 @@ def m_topic(seed):
     return Model(sim, [src, topic, publisher, *subs])
 
 
-@model("event-log-consumer-group")
+@model("event-log-consumer-group", explicit_seeds=True)
 def m_event_log(seed):
     """Wiring of examples/infrastructure/consumer_group.py (events created after Simulation())."""
     from happysimulator import ConsumerGroup, EventLog, SimFuture, SizeRetention, StickyAssignment
@@ -1222,7 +1236,7 @@ def m_distributions(seed):
 # ===========================================================================
 # 13. assembly style of the repository's own examples: events built BEFORE Simulation()
 # ===========================================================================
-@model("preconstructed-events")
+@model("preconstructed-events", explicit_seeds=True)
 def m_preconstructed(seed):
     """examples/distributed/multi_leader_replication.py and examples/infrastructure/consumer_group.py
     create their control / poll events first and construct the Simulation afterwards.  Same here:
@@ -1251,11 +1265,16 @@ def m_infrastructure(seed):
     dns = DNSResolver("dns", cache_capacity=3,
                       records={f"svc-{i}.example.com": DNSRecord(hostname=f"svc-{i}.example.com",
                                                                  ip_address=f"10.0.0.{i}", ttl_s=0.2) for i in range(6)})
+    from happysimulator import BBR, ConcurrentGC, StopTheWorld
     gc = GarbageCollector("gc", strategy=GenerationalGC(minor_interval_s=0.1), heap_pressure=0.8)
+    gcs = [GarbageCollector("gc-stw", strategy=StopTheWorld(base_pause_s=0.004, interval_s=0.2), heap_pressure=0.5),
+           GarbageCollector("gc-conc", strategy=ConcurrentGC(pause_s=0.001, interval_s=0.1))]
     pc = PageCache("pagecache", capacity_pages=8, readahead_pages=2)
     tcp = [TCPConnection("tcp-aimd", congestion_control=AIMD(), base_rtt_s=0.01, loss_rate=0.05,
                          retransmit_timeout_s=0.05),
            TCPConnection("tcp-cubic", congestion_control=Cubic(), base_rtt_s=0.01, loss_rate=0.05,
+                         retransmit_timeout_s=0.05),
+           TCPConnection("tcp-bbr", congestion_control=BBR(), base_rtt_s=0.01, loss_rate=0.05,
                          retransmit_timeout_s=0.05)]
     r = random.Random(seed)
 
@@ -1269,12 +1288,12 @@ def m_infrastructure(seed):
             yield from disk.write(8192)
         else:
             yield from disk.read(4096)
-        yield from gc.pause()
-        yield from tcp[i % 2].send(20_000)
+        yield from (gc, *gcs)[i % 3].pause()
+        yield from tcp[i % 3].send(20_000)
 
     worker = Script("worker", work)
     src = Source.poisson(rate=40.0, target=worker, event_type="job", stop_after=0.6, name="src")
-    ents = [worker, cpu, cpu2, disk, dns, gc, pc, *tcp]
+    ents = [worker, cpu, cpu2, disk, dns, gc, *gcs, pc, *tcp]
     sim = Simulation(sources=[src], entities=ents, end_time=Instant.from_seconds(3.0))
     return Model(sim, [src, *ents])
 
@@ -1308,7 +1327,7 @@ def m_scheduling(seed):
     return Model(sim, [src, *ents], extra=lambda: [sched.get_job_state(n) for n in ("extract", "transform", "load")])
 
 
-@model("behavior-population")
+@model("behavior-population", explicit_seeds=True)
 def m_behavior(seed):
     """Mirrors examples/behavior/product_adoption.py at small scale (string-named agents, small-world graph)."""
     from happysimulator import (BehaviorEnvironment, BoundedConfidenceModel, DemographicSegment,
@@ -1400,11 +1419,15 @@ def m_industrial(seed):
                                                                    balk_probability=0.5))
     belt = ConveyorBelt("belt", downstream=station, transit_time=0.05, capacity=6)
     breaker = BreakdownScheduler("breakdowns", target=machine, mean_time_to_failure=0.3, mean_repair_time=0.05)
+    from happysimulator import AppointmentScheduler
+    appts = AppointmentScheduler("appointments", target=belt, appointments=[0.05 * k for k in range(1, 25)],
+                                 no_show_rate=0.3, event_type="Request")
     src = Source.poisson(rate=60.0, target=belt, stop_after=1.0, name="src")
-    ents = [belt, station, machine, batch, breaker, good, scrap, done]
+    ents = [belt, station, machine, batch, breaker, appts, good, scrap, done]
     sim = Simulation(sources=[src], entities=ents, end_time=Instant.from_seconds(2.0))
     ev0 = breaker.start_event()
     sim.schedule(ev0 if isinstance(ev0, (Event, list)) else [])
+    sim.schedule(appts.start_events())
     return Model(sim, [src, *ents])
 
 
@@ -1423,11 +1446,16 @@ def m_datastore_misc(seed):
     repl = ReplicatedStore("replicated", replicas=replicas, read_consistency=ConsistencyLevel.QUORUM,
                            write_consistency=ConsistencyLevel.QUORUM)
     db = Database("db", max_connections=2, query_latency=0.004, connection_latency=0.002)
+    from happysimulator.components.datastore import ShardedStore
+    from happysimulator.components.datastore.sharded_store import ConsistentHashSharding
+    cshards = [KVStore(f"cshard-{i}", read_latency=0.001 * (i + 1), write_latency=0.001 * (i + 1)) for i in range(3)]
+    chash = ShardedStore("chash", shards=cshards, sharding_strategy=ConsistentHashSharding(virtual_nodes=8, seed=seed))
     r = random.Random(seed)
 
     def client(self, event):
         k = f"sku-{r.randrange(10)}"
         which = self.calls % 4
+        yield from chash.put(k, self.calls)
         if which == 0:
             if r.random() < 0.4:
                 yield from soft.put(k, self.calls)
@@ -1454,7 +1482,7 @@ def m_datastore_misc(seed):
     clients = [Script(f"client-{i}", client) for i in range(3)]
     fan = Script("fan", lambda self, ev: [self.forward(ev, clients[self.calls % 3])])
     src = Source.poisson(rate=120.0, target=fan, event_type="op", stop_after=0.8, name="src")
-    ents = [fan, *clients, origin, soft, l1, l2, tiers, *replicas, repl, db]
+    ents = [fan, *clients, origin, soft, l1, l2, tiers, *replicas, repl, db, chash, *cshards]
     sim = Simulation(sources=[src], entities=ents, end_time=Instant.from_seconds(2.0))
     return Model(sim, [src, *ents])
 
@@ -1647,3 +1675,199 @@ def m_shared_arguments(seed):
     sim.schedule(ev0 if isinstance(ev0, (Event, list)) else [])
     return Model(sim, [*srcs, *ents],
                  extra=lambda: {"top": [(f.item, f.count) for f in topk.top()], "samples": samples})
+
+
+# ===========================================================================
+# 16. explicitly seeded components only (the global generators are part of the environment)
+# ===========================================================================
+@model("sketch-merge", explicit_seeds=True)
+def m_sketch_merge(seed):
+    """Two SEEDED instances of every sketch with a merge(), each fed half of a seeded Zipf stream of
+    string ids through collectors inside a simulation; the merged sketches are queried afterwards."""
+    from happysimulator import (BloomFilter, CountMinSketch, HyperLogLog, MerkleTree, QuantileEstimator,
+                                ReservoirSampler, SketchCollector, TDigest, TopK, ZipfDistribution)
+    from happysimulator import ConstantArrivalTimeProvider, ConstantRateProfile, DistributedFieldProvider
+    ids = [f"customer-{i:03d}" for i in range(40)]
+
+    def pair(mk):
+        return [mk(), mk()]
+
+    sk = {"cms": pair(lambda: CountMinSketch(width=32, depth=3, seed=seed)),
+          "bloom": pair(lambda: BloomFilter(size_bits=256, num_hashes=3, seed=seed)),
+          "hll": pair(lambda: HyperLogLog(precision=6, seed=seed)),
+          "topk": pair(lambda: TopK(k=6, seed=seed)),
+          "reservoir": [ReservoirSampler(size=8, seed=seed), ReservoirSampler(size=8, seed=seed + 1)],
+          "tdigest": pair(lambda: TDigest(compression=20.0, seed=seed))}
+    cols = []
+    for half in (0, 1):
+        for k, (a, b) in sk.items():
+            ext = (lambda e: float(int(e.context["customer_id"][-3:]))) if k == "tdigest" \
+                else (lambda e: e.context.get("customer_id"))
+            cols.append(SketchCollector(f"{k}-{half}", (a, b)[half], value_extractor=ext))
+    fan = Script("fan", lambda self, ev: [self.forward(ev, c) for c in cols
+                                          if c.name.endswith(str(self.calls % 2))])
+    provider = DistributedFieldProvider(target=fan, event_type="Request",
+                                        field_distributions={"customer_id": ZipfDistribution(ids, s=1.1, seed=seed)},
+                                        stop_after=Instant.from_seconds(0.5))
+    src = Source("src", event_provider=provider,
+                 arrival_time_provider=ConstantArrivalTimeProvider(ConstantRateProfile(rate=300.0),
+                                                                   start_time=Instant.Epoch))
+    sim = Simulation(sources=[src], entities=[fan, *cols], end_time=Instant.from_seconds(0.6))
+
+    def observe():
+        out = {}
+        for k, (a, b) in sk.items():
+            a.merge(b)
+        out["cms"] = [sk["cms"][0].estimate(i) for i in ids]
+        out["bloom"] = [sk["bloom"][0].contains(i) for i in ids] + [sk["bloom"][0].false_positive_rate]
+        out["hll"] = sk["hll"][0].cardinality()
+        out["topk"] = [(f.item, f.count, f.error) for f in sk["topk"][0].top(6)]
+        out["reservoir"] = (list(sk["reservoir"][0].sample()), sk["reservoir"][0].item_count)
+        out["tdigest"] = [sk["tdigest"][0].quantile(q) for q in (0.1, 0.5, 0.9)]
+        ta = MerkleTree.build({i: sk["cms"][0].estimate(i) for i in ids[:16]})
+        tb = MerkleTree.build({i: sk["cms"][1].estimate(i) for i in ids[4:20]})
+        out["merkle"] = (ta.root_hash, tb.root_hash, [repr(r) for r in ta.diff(tb)])
+        return out
+    return Model(sim, [src, fan, *cols], extra=observe)
+
+
+@model("behavior-graphs", explicit_seeds=True)
+def m_behavior_graphs(seed):
+    """Every Population builder x graph type, every decision / influence model, every stimulus
+    helper and every SocialGraph generator, all explicitly seeded."""
+    import happysimulator as hs
+
+    def utility(choice, ctx):
+        base = {"buy": 0.5, "wait": 0.4, "switch": 0.2}.get(choice.action, 0.1)
+        return base + 0.3 * ctx.traits.get("openness") if choice.action == "buy" else base
+
+    segs = [hs.DemographicSegment(name="early", fraction=0.4,
+                                  trait_distribution=hs.NormalTraitDistribution(
+                                      means={"openness": 0.8, "conscientiousness": 0.5, "extraversion": 0.6,
+                                             "agreeableness": 0.5, "neuroticism": 0.3}),
+                                  decision_model_factory=lambda: hs.BoundedRationalityModel(utility, aspiration=0.6)),
+            hs.DemographicSegment(name="late", fraction=0.6,
+                                  trait_distribution=hs.UniformTraitDistribution(
+                                      ["openness", "conscientiousness", "extraversion", "agreeableness",
+                                       "neuroticism"]),
+                                  decision_model_factory=lambda: hs.SocialInfluenceModel(utility, 0.5), seed=seed + 9)]
+    composite = hs.CompositeModel([(hs.UtilityModel(utility, temperature=0.5), 0.6),
+                                   (hs.RuleBasedModel([hs.Rule(lambda ctx: ctx.traits.get("neuroticism") > 0.6,
+                                                               "wait", priority=1)], default_action="buy"), 0.4)])
+    pops = {
+        "u-complete": (hs.Population.uniform(6, hs.UtilityModel(utility, temperature=0.7), graph_type="complete",
+                                             seed=seed, name_prefix="uc"), hs.DeGrootModel(self_weight=0.4)),
+        "u-small": (hs.Population.uniform(10, composite, graph_type="small_world", seed=seed + 1,
+                                          name_prefix="us"), hs.BoundedConfidenceModel(epsilon=0.5, self_weight=0.3)),
+        "u-random": (hs.Population.uniform(12, hs.UtilityModel(utility, temperature=0.7), graph_type="random",
+                                           seed=seed + 2, name_prefix="ur"), hs.VoterModel()),
+        "s-random": (hs.Population.from_segments(12, segs, graph_type="random", seed=seed + 3, name_prefix="sr"),
+                     hs.DeGrootModel(self_weight=0.5)),
+        "s-small": (hs.Population.from_segments(10, segs, graph_type="small_world", seed=seed + 4,
+                                                name_prefix="ss"), hs.VoterModel()),
+    }
+    envs, ents, actions = [], [], []
+    for label, (pop, infl) in pops.items():
+        r = random.Random(seed)
+        for ag in pop.agents:
+            ag.state.beliefs["product_sentiment"] = r.random()
+            for act in ("buy", "wait", "switch"):
+                ag.on_action(act, lambda a, choice, event, _n=ag.name: actions.append(
+                    (a.now.nanoseconds, _n, choice.action)) and None)
+        env = hs.BehaviorEnvironment(name=f"env-{label}", agents=pop.agents, social_graph=pop.social_graph,
+                                     influence_model=infl, seed=seed)
+        envs.append(env)
+        ents += [env, *pop.agents]
+    sim = Simulation(start_time=Instant.Epoch, end_time=Instant.from_seconds(5.0), entities=ents)
+    for (label, (pop, _)), env in zip(pops.items(), envs):
+        names = [a.name for a in pop.agents]
+        sim.schedule(hs.broadcast_stimulus(0.5, env, "launch", choices=["buy", "wait", "switch"]))
+        sim.schedule(hs.targeted_stimulus(1.0, env, names[:3], "coupon", choices=["buy", "wait"]))
+        sim.schedule(hs.price_change(1.5, env, "GadgetX", 100.0, 80.0))
+        sim.schedule(hs.policy_announcement(2.0, env, "returns", "free returns", valence=0.4))
+        for t in (2.5, 3.0, 3.5):
+            sim.schedule(hs.influence_propagation(t, env, "product_sentiment"))
+    gnames = [f"n{i}" for i in range(10)]
+    graphs = {"er": hs.SocialGraph.random_erdos_renyi(gnames, p=0.3, rng=random.Random(seed)),
+              "sw": hs.SocialGraph.small_world(gnames, k=4, p_rewire=0.5, rng=random.Random(seed)),
+              "complete": hs.SocialGraph.complete(gnames[:4], rng=random.Random(seed))}
+
+    def observe():
+        out = {"actions": actions, "graphs": {k: (g.edge_count, [sorted(g.neighbors(n)) for n in gnames[:4]])
+                                              for k, g in graphs.items()}}
+        for label, (pop, _) in pops.items():
+            g = pop.social_graph
+            out[label] = {"edges": g.edge_count,
+                          "nbrs": [sorted(g.neighbors(a.name)) for a in pop.agents],
+                          "beliefs": [a.state.beliefs.get("product_sentiment") for a in pop.agents],
+                          "stats": pop.stats}
+        return out
+    return Model(sim, ents, extra=observe)
+
+
+# ===========================================================================
+# coverage of the package: every module that takes seed= / rng= or touches random, numpy.random,
+# uuid, time or builtin hash() (the parent re-greps the tree on every run and reports modules that
+# are missing here).  value: (models exercising it — with every option value that selects another
+# code branch —, or None), note / reason
+# ===========================================================================
+COVERAGE = {
+    "components/behavior/agent.py": (["behavior-graphs", "behavior-population"], "Agent(seed=) decisions, action handlers"),
+    "components/behavior/decision.py": (["behavior-graphs"], "UtilityModel(temperature>0), RuleBased, BoundedRationality, SocialInfluence, Composite"),
+    "components/behavior/environment.py": (["behavior-graphs", "behavior-population"], "Environment(seed=): broadcast, targeted, influence rounds"),
+    "components/behavior/influence.py": (["behavior-graphs", "behavior-population"], "DeGroot, BoundedConfidence, Voter"),
+    "components/behavior/population.py": (["behavior-graphs", "behavior-population"], "uniform + from_segments x graph_type in {complete, small_world, random}; segment seed given / derived"),
+    "components/behavior/social_network.py": (["behavior-graphs"], "complete, random_erdos_renyi, small_world (rewiring) with rng="),
+    "components/behavior/traits.py": (["behavior-graphs", "behavior-population", "shared-arguments"], "Normal + Uniform trait distributions"),
+    "components/client/retry.py": (["client-retry-pool", "shared-arguments"], "ExponentialBackoff(jitter), DecorrelatedJitter, FixedRetry"),
+    "components/consensus/election_strategies.py": (["leader-election"], "Bully, Ring, Randomized"),
+    "components/consensus/membership.py": (["membership"], "probe target / indirect probers"),
+    "components/consensus/paxos.py": (["paxos"], "retry back-off"),
+    "components/consensus/raft.py": (["raft"], "election timeouts"),
+    "components/crdt/crdt_store.py": (["crdt-gossip"], "gossip peer choice"),
+    "components/datastore/eviction_policies.py": (["cache-lru", "cache-lfu", "cache-fifo", "cache-random", "cache-slru", "cache-sampled-lru", "cache-clock", "cache-2q", "cache-ttl", "cache-writeback-lru"], "all nine policies; TTL default wall clock"),
+    "components/datastore/sharded_store.py": (["cache-lru", "shared-arguments", "datastore-misc"], "HashSharding, RangeSharding, ConsistentHashSharding(seed=)"),
+    "components/industrial/appointment.py": (["industrial-line"], "no-show draw"),
+    "components/industrial/balking.py": (["industrial-line"], "balk draw"),
+    "components/industrial/breakdown.py": (["industrial-line", "faults-schedule"], "time to failure / repair"),
+    "components/industrial/inspection.py": (["industrial-line"], "pass / fail draw"),
+    "components/infrastructure/disk_io.py": (["infrastructure"], "HDD seek jitter (SSD in lsm-leveled)"),
+    "components/infrastructure/garbage_collector.py": (["infrastructure"], "GenerationalGC, StopTheWorld, ConcurrentGC pause jitter"),
+    "components/infrastructure/tcp_connection.py": (["infrastructure"], "loss draw; AIMD, Cubic, BBR"),
+    "components/load_balancer/strategies.py": (["load-balancer-strategies"], "all nine strategies"),
+    "components/messaging/message_queue.py": (["message-queue-dlq"], "uuid4 message ids (opaque)"),
+    "components/microservice/api_gateway.py": (["microservice"], "auth failure draw"),
+    "components/network/link.py": (["network-jitter", "faults-schedule"], "packet loss draw, jitter"),
+    "components/queue_policies/red.py": (["queue-policies"], "early drop draw"),
+    "components/random_router.py": (["distributions"], "target choice"),
+    "components/replication/multi_leader.py": (["multi-leader"], "anti-entropy peer choice"),
+    "components/sketching/quantile_estimator.py": (["sketch-quantile-reservoir"], "seed= passed through"),
+    "components/sketching/topk_collector.py": (["sketch-topk", "shared-arguments"], "seed= passed through"),
+    "core/control/control.py": (["<every model>"], "every run attaches control.on_event (uuid hook ids, wall clock only in get_state)"),
+    "core/event.py": (["<every model>", "preconstructed-events"], "creation counter; Event.__hash__"),
+    "core/simulation.py": (["<every model>"], "wall clock only feeds summary.wall_clock_seconds (removed from the digest)"),
+    "core/temporal.py": (["<every model>"], "Instant / Duration __hash__ of ints"),
+    "core/logical_clocks.py": (None, "HLCTimestamp.__hash__ of ints/str tuple, never iterated in a set by the library; C18 owns the clocks"),
+    "distributions/exponential.py": (["mm1-poisson-exp", "distributions"], "module RNG"),
+    "distributions/percentile_fitted.py": (["distributions"], "module RNG"),
+    "distributions/uniform.py": (["distributions", "sketch-countmin", "shared-arguments"], "seed="),
+    "distributions/zipf.py": (["distributions", "sketch-countmin", "sketch-merge"], "seed="),
+    "faults/network_faults.py": (["faults-schedule"], "RandomPartition(seed=), InjectPacketLoss (module RNG via link)"),
+    "load/providers/poisson_arrival.py": (["mm1-poisson-exp", "poisson-profiles"], "numpy global RNG; constant + spike profile"),
+    "sketching/__init__.py": (["sketch-merge"], "re-exports"),
+    "sketching/base.py": (["sketch-merge"], "abstract bases"),
+    "sketching/bloom_filter.py": (["sketch-bloom", "sketch-merge", "lsm-size-tiered"], "add / contains / merge"),
+    "sketching/count_min_sketch.py": (["sketch-countmin", "sketch-merge"], "add / estimate / merge, from_error_rate"),
+    "sketching/hyperloglog.py": (["sketch-hll", "sketch-merge"], "add / cardinality / merge"),
+    "sketching/reservoir.py": (["sketch-quantile-reservoir", "sketch-merge"], "add / sample / merge of two non-empty seeded samplers"),
+    "sketching/tdigest.py": (["sketch-quantile-reservoir", "sketch-merge"], "add / quantile / merge"),
+    "sketching/topk.py": (["sketch-topk", "sketch-merge"], "add / top / merge"),
+    "parallel/coordinator.py": (None, "ParallelSimulation (threads, wall-clock stats) is property C05"),
+    "parallel/runner.py": (None, "ParallelRunner spawns worker processes per seed; C05 territory"),
+    "parallel/simulation.py": (None, "ParallelSimulation is property C05"),
+    "mcp/server.py": (None, "MCP tooling front-end, not a simulation component"),
+    "mcp/tools.py": (None, "MCP tooling front-end, not a simulation component"),
+    "visual/code_debugger.py": (None, "visual debugger (uuid ids for UI objects), not part of a model run"),
+    "visual/dashboard.py": (None, "visual debugger, not part of a model run"),
+    "visual/server.py": (None, "visual debugger web server, not part of a model run"),
+}
